@@ -8,6 +8,7 @@ mod calops;
 mod misc;
 mod numops;
 mod linalg;
+mod fxops;
 
 fn main() {
     let path = std::env::args().nth(1).expect("usage: vreplay <scenarios.json>");
@@ -33,6 +34,7 @@ fn run(sc: &Value) -> Value {
         k if k.starts_with("dual") => dualops::run(sc),
         k if k.starts_with("cal") => calops::run(sc),
         "linalg" => linalg::run(sc),
+        "fx" => fxops::run(sc),
         k if k.starts_with("number") || k == "set_order" || k == "from" => numops::run(sc),
         _ => misc::run(sc),
     }
